@@ -155,6 +155,10 @@ def run(tier, seed, model):
     announced_in_force(camp, rng, batch, 3 if tier == "quick" else 40)
     if not camp.oracle_failures:
         session_sequences(camp, rng, 12 if tier == "quick" else 300)
+    if not camp.oracle_failures:
+        command_line_switches(camp)
+    if not camp.oracle_failures:
+        cursor_in_force(camp, rng, 4 if tier == "quick" else 100)
     camp.exhaustive = False
     camp.extra["bgr16_all_65536_values"] = True
     batch.resolve(camp, "C13")
@@ -253,7 +257,77 @@ def session_sequences(camp, rng, rounds):
                 return
 
 
+def command_line_switches(camp):
+    """the switches of the vncdo command line, through the real option parser and the real option-to-factory code
+    (cliopts.run_vncdo), then the real handshake on that factory: SetEncodings follows the switches"""
+    import itertools
+    import cliopts
+    from twisted.internet.testing import StringTransport
+    names = ["--localcursor", "--nocursor", "--disable-desktop-resizing", "--force-caps"]
+    for combo in itertools.product([False, True], repeat=4):
+        argv = [n for n, on in zip(names, combo) if on] + ["key", "a"]
+        g = cliopts.run_vncdo(argv)
+        camp.evaluations += 1
+        camp.count("command-line-switches")
+        camp.nontrivial.add(("switches", combo))
+        why = None
+        if g["factory"] is None or g["raised"] is not None:
+            why = f"vncdo did not get as far as the factory (exit {g['exit']}, raised {g['raised']!r})"
+        else:
+            f = g["factory"]
+            c = f.buildProtocol(None)
+            tr = StringTransport()
+            c.makeConnection(tr)
+            c.dataReceived(b"RFB 003.008\n\x01\x01\0\0\0\0")
+            tr.clear()
+            c.dataReceived(struct.pack("!HH16sI", 4, 4, rfbgen.RGB32.block(), 0))
+            msgs = clientops.parse_c2s(tr.value()) or []
+            setenc = [m[1] for m in msgs if m[0] == "SetEncodings"]
+            exp = [0] + ([-239] if (combo[0] or combo[1]) else []) + ([] if combo[2] else [-223]) + [-224, -258]
+            if setenc != [exp]:
+                why = f"SetEncodings {setenc}, the switches say {exp}"
+            elif bool(getattr(f, "force_caps", False)) != combo[3]:
+                why = f"force_caps is {getattr(f, 'force_caps', None)!r} on the factory"
+        if why:
+            camp.oracle_failures.append({"kind": "oracle", "property": "C13", "case": {"argv": argv, "command_line": True},
+                                         "what": f"vncdo {' '.join(argv)}: {why}"})
+            return
+
+
+def cursor_in_force(camp, rng, rounds):
+    """cursor-shape rectangles carry pixels in the format in force too: with --localcursor the shape painted on the
+    screen (hot spot 0,0, pointer at 0,0, full mask) shows the colours that were sent, for every accepted format and for
+    the announced one after an unrenderable native format"""
+    cases = [(f, (3, 8), f) for f in rfbgen.ACCEPTED] + [(rfbgen.UNACCEPTED[0], (3, 8), rfbgen.RGB32), (rfbgen.UNACCEPTED[0], (3, 889), rfbgen.BGR16)]
+    for _ in range(rounds):
+        for native, version, inforce in cases:
+            hs = rfbgen.banner(*version) + b"\x01\x01\0\0\0\0" + struct.pack("!HH16sI", 4, 3, native.block(), 0)
+            bgv = rng.getrandbits(inforce.bpp)
+            vals = [rng.getrandbits(inforce.bpp) for _ in range(4)]
+            msg = (b"\0\0\0\x01" + struct.pack("!HHHHi", 0, 0, 4, 3, 0) + inforce.pix(bgv) * 12
+                   + b"\0\0\0\x01" + struct.pack("!HHHHi", 0, 0, 2, 2, -239) + b"".join(inforce.pix(v) for v in vals) + b"\xc0\xc0"
+                   + b"\x02")
+            want = [inforce.rgb(bgv)] * 12
+            for k, (x, y) in enumerate([(0, 0), (1, 0), (0, 1), (1, 1)]):
+                want[y * 4 + x] = inforce.rgb(vals[k])
+            want = b"".join(bytes(p_) for p_ in want)
+            cfg = Cfg(variant=rng.choice([1, 2]), pseudocursor=True, nocursor=False)
+            r = run_real(cfg, [hs + msg])
+            camp.evaluations += 1
+            camp.count(f"cursor-in-force:bpp{inforce.bpp}")
+            camp.nontrivial.add(("cursor", native.t, version, bgv, tuple(vals)))
+            got = r["screen"][1] if r["screen"] else None
+            if r["final"][0] != "idle" or got != want:
+                camp.oracle_failures.append({"kind": "oracle", "property": "C13", "case": case_payload(cfg, [hs + msg]),
+                                             "what": f"--localcursor, server {version} native {native.t}, format in force {inforce.t}: a 2x2 cursor shape with "
+                                                     f"full mask at the pointer (0,0): the client ends {r['final'][:2]}, screen "
+                                                     f"{None if got is None else got.hex()}, expected {want.hex()}"})
+                return
+
+
 def replay(payload):
+    if payload.get("case", {}).get("command_line"):
+        return True, "replay: command-line scenario; re-run ./check C13"
     case = payload["case"]
     cfg = cfg_from_payload(case["cfg"])
     chunks = [bytes.fromhex(c) for c in case["chunks"]]
